@@ -641,6 +641,68 @@ fn exhaustive(ctx: &mut Ctx) {
     }
 }
 
+/// a force-flush guard dropped while other threads use the entry's guards and handles through
+/// `&self` (Debug formatting, handle clones, new flush guards): those operations must not make
+/// the force drop a no-op
+#[derive(Clone, Debug, Serialize, Deserialize)]
+pub struct ForceVsUseCase {
+    pub flush_guards: u8,
+    pub readers: u8,
+    pub jitter: Vec<u8>,
+    /// the owner is dropped before (true) or after the racing phase
+    pub owner_first: bool,
+}
+
+pub fn check_force_vs_use(case: &ForceVsUseCase) -> CaseResult {
+    let sink = CountSink::new();
+    let mut owner = Some(Uow { a: 1, b: 2, c: metrique::Counter::new(0), t: ClosedAt }.append_on_drop(sink.clone()));
+    let n = 1 + (case.flush_guards % 3) as usize;
+    let guards: Vec<FlushGuard> = (0..n).map(|_| owner.as_ref().unwrap().flush_guard()).collect();
+    let force = owner.as_ref().unwrap().force_flush_guard();
+    if case.owner_first {
+        no_panic("uow-op", || drop(owner.take()))?;
+        vensure!(sink.count() == 0, "uow:appended-too-early", "owner dropped with {n} flush guard(s) and a force guard alive: already appended");
+    }
+    let nr = 1 + (case.readers % 3) as usize;
+    let barrier = std::sync::Barrier::new(nr + 1);
+    let jit = |k: usize| case.jitter.get(k % case.jitter.len().max(1)).copied().unwrap_or(0);
+    let res = std::thread::scope(|s| {
+        for r in 0..nr {
+            let guards = &guards;
+            let barrier = &barrier;
+            s.spawn(move || {
+                barrier.wait();
+                let mut len = 0usize;
+                for k in 0..300 {
+                    len += format!("{:?}", guards[(r + k) % guards.len()]).len();
+                }
+                len
+            });
+        }
+        let barrier = &barrier;
+        let h = s.spawn(move || {
+            barrier.wait();
+            crate::bq::jitter(jit(0));
+            std::panic::catch_unwind(std::panic::AssertUnwindSafe(|| drop(force))).is_ok()
+        });
+        h.join().unwrap_or(false)
+    });
+    vensure!(res, "panic:force-guard-drop", "dropping the force-flush guard panicked");
+    if !case.owner_first {
+        no_panic("uow-op", || drop(owner.take()))?;
+    }
+    // owner gone, no handles, a force guard was dropped: appended now, whatever the flush guards do
+    vensure!(
+        sink.count() == 1,
+        if sink.count() == 0 { "uow:not-appended" } else { "uow:appended-twice" },
+        "the force-flush guard was dropped (while {nr} thread(s) were Debug-formatting the entry's {n} flush guard(s)) and the owner is gone, but the sink holds {} entries",
+        sink.count()
+    );
+    no_panic("uow-op", || drop(guards))?;
+    vensure!(sink.count() == 1, "uow:appended-twice", "dropping the flush guards after the force flush appended again: {}", sink.count());
+    Ok(vec!["nt", if case.owner_first { "owner-dropped-before-the-race" } else { "owner-dropped-after-the-race" }])
+}
+
 pub fn arb_op() -> impl Strategy<Value = Op> {
     prop_oneof![
         3 => Just(Op::NewFlushGuard),
@@ -720,5 +782,17 @@ pub fn run(ctx: &mut Ctx) {
                 })
         },
         check_seq,
+    );
+    ctx.explore(
+        SubCfg::new(
+            "c06-force-drop-vs-concurrent-use",
+            "owner + 1-3 flush guards + a force-flush guard; the force guard is dropped on its own thread while 1-3 other threads Debug-format the flush guards in a loop (a &self use of the entry's keep-alive state); the owner is dropped before or after. Oracle: with the owner gone and the force guard dropped the entry is appended exactly once, whatever the flush guards do afterwards. Non-trivial = every case",
+            if q { 600 } else { 20_000 },
+        )
+        .threads(ctx.tier.pick(2, 4))
+        .shrink_iters(20)
+        .mandatory(&["owner-dropped-before-the-race", "owner-dropped-after-the-race"]),
+        || (any::<u8>(), any::<u8>(), prop::collection::vec(any::<u8>(), 0..4), any::<bool>()).prop_map(|(flush_guards, readers, jitter, owner_first)| ForceVsUseCase { flush_guards, readers, jitter, owner_first }),
+        check_force_vs_use,
     );
 }
